@@ -43,6 +43,7 @@ type builtFile struct {
 
 func (fc fileCase) build() (*builtFile, error) {
 	b := &builtFile{}
+	var written []spec.AbsVal // for files the library's encoder wrote: what was written
 	switch {
 	case fc.Wire != nil:
 		w := *fc.Wire
@@ -57,11 +58,12 @@ func (fc fileCase) build() (*builtFile, error) {
 		}
 		b.file, b.ts = file, w.Target
 	case fc.Enc != nil:
-		file, _, err := encodeCase(*fc.Enc)
+		file, in, err := encodeCase(*fc.Enc)
 		if err != nil {
 			return nil, fmt.Errorf("encoder failed: %w", err)
 		}
 		b.file, b.ts = file, fc.Enc.Type
+		written = in
 	default:
 		return nil, fmt.Errorf("VERIF-INCONCLUSIVE empty file case")
 	}
@@ -88,6 +90,17 @@ func (fc fileCase) build() (*builtFile, error) {
 	}
 	if len(got) != total {
 		return nil, fmt.Errorf("intact file declares %d records, %d delivered", total, len(got))
+	}
+	if written != nil {
+		// "exactly the records": the records delivered from the intact file are the records written
+		if len(written) != len(got) {
+			return nil, fmt.Errorf("%d records written, the intact file delivers %d", len(written), len(got))
+		}
+		for i := range got {
+			if err := spec.Match(written[i], got[i], fmt.Sprintf("intact file, record[%d]", i)); err != nil {
+				return nil, fmt.Errorf("the intact file does not deliver what was written: %v", err)
+			}
+		}
 	}
 	b.intact = got
 	return b, nil
